@@ -23,6 +23,19 @@ import (
 
 func c05GenFx(r *verifh.Rng) []verifh.Section {
 	var secs []verifh.Section
+	// WithWorkers(k) for k below minWorkers: the cfg carries the requested value (req) and the capacity the
+	// decision table of the model derives from it (n); the driver re-derives n from req
+	for _, kind := range []string{"fx", "mr"} {
+		for _, req := range []int{0, -1, r.Range(-1000, -2), 1} {
+			api := ""
+			if kind == "mr" {
+				api = "api=foreach "
+			}
+			secs = append(secs, verifh.Section{Cfg: fmt.Sprintf("kind=%s mode=conc n=1 req=%d", kind, req), Ops: []string{
+				fmt.Sprintf("run %sitems=%d pan=0 rs=%d", api, r.Range(2, 60), r.Intn(1<<30)),
+			}})
+		}
+	}
 	for i := 0; i < verifh.Scale(6, 200); i++ {
 		n := r.Pick(1, 2, 3, r.Range(1, 8), 16)
 		secs = append(secs, verifh.Section{Cfg: fmt.Sprintf("kind=fx mode=conc n=%d", n), Ops: []string{
@@ -43,6 +56,9 @@ func c05GenFx(r *verifh.Rng) []verifh.Section {
 
 func c05StartWorkers(cfg verifh.Cfg) (func(op []string) string, func()) {
 	n := cfg.Int("n", 1)
+	if cfg.Str("req", "") != "" {
+		n = cfg.Int("req", 1) // what is handed to WithWorkers (may be 0 / negative: floored to minWorkers)
+	}
 	kind := cfg.Str("kind", "")
 	step := func(op []string) string {
 		if op[0] != "run" {
